@@ -46,8 +46,8 @@ def falsy_request(req):
     return not (req.get("reduce_dims") or req.get("preserve_dims"))
 
 
-U3 = ["a", "b", "c"]
-U4 = ["a", "b", "c", "all"]
+U3 = ["lat", "b", "cc"]
+U4 = ["lat", "b", "cc", "all"]
 
 
 def spec_json(s):
@@ -68,19 +68,19 @@ def exc_kind(ex):
 def gather_configs(ctx):
     u = U4 if ctx.thorough else U3
     subs = all_subsets(u)
-    reqs = [None, "all"] + [x for x in u if x != "all"] + ["zz"] + subs + [["zz"], ["a", "zz"]]
-    specifics = [None, "a", ["a"], ["a", "b"], "zz"]
+    reqs = [None, "all"] + [x for x in u if x != "all"] + ["zz"] + subs + [["zz"], ["lat", "zz"]]
+    specifics = [None, "lat", ["lat"], ["lat", "b"], "zz"]
     cfgs = []
     rng = ctx.rng
     for f in subs:
         for o in subs:
-            for w in [None] + ([[], ["a"], ["c"], ["a", "b"], ["zz"]]):
+            for w in [None] + ([[], ["lat"], ["cc"], ["lat", "b"], ["zz"]]):
                 for sp in specifics:
                     for r in reqs:
                         cfgs.append((f, o, w, r, None, sp))
                         cfgs.append((f, o, w, None, r, sp))
                     cfgs.append((f, o, w, "all", "all", sp))
-                    cfgs.append((f, o, w, ["a"], ["b"], sp))
+                    cfgs.append((f, o, w, ["lat"], ["b"], sp))
     if not ctx.thorough and len(cfgs) > 60000:
         # quick: the full 3-name product is ~90k; keep a deterministic stride + random remainder
         keep = cfgs[::3] + rng.sample(cfgs, 8000)
